@@ -255,6 +255,12 @@ func judgeMSStream(cfg string, hard *ref.Problem, costOf func(uint32) int, items
 	if len(items) >= 3 {
 		out.probe("stream-len>=3")
 	}
+	if len(items) >= 6 {
+		out.probe("ms-stream-len>=6")
+	}
+	if len(items) >= 10 {
+		out.probe("ms-stream-len>=10")
+	}
 	for i, r := range items {
 		switch r.Status {
 		case solver.Sat:
